@@ -1,8 +1,8 @@
 #!/bin/sh
-# tools/refall.sh — run every quick check against every behaviour-preserving refactor in refactors/ (R1…);
+# tools/refall.sh  (REFS="R3 R16" to restrict) — run every quick check against every behaviour-preserving refactor in refactors/ (R1…);
 # prints one line per (refactor, property) that is not silent.
 cd "$(dirname "$0")/.."
-for r in $(ls refactors | sort -V); do
+for r in ${REFS:-$(ls refactors | sort -V)}; do
   [ -f refactors/$r/patch.diff ] || continue
   git -C "${VERIF_REPO:-/repo}" apply --check "$(pwd)/refactors/$r/patch.diff" 2>/dev/null || { echo "$r: patch does not apply"; continue; }
   tools/reftest.sh $r | grep -E "rc=[12]|broken" | head -60
